@@ -200,6 +200,19 @@ def obj_processors(names):
     for n in names:
         if n == "INT:inc":
             procs["INT"] = lambda x: int(x) + 1
+        elif n == "INT:no13":
+            # a base-type processor rejecting a value: raises while the object graph is being built
+            def no13(x):
+                if int(x) == 13:
+                    raise TextXSemanticError("13 is not allowed")
+                return int(x)
+            procs["INT"] = no13
+        elif n == "ID:nope":
+            def nope(x):
+                if x == "nope":
+                    raise ValueError("nope is not a name")
+                return x
+            procs["ID"] = nope
         elif n == "STRING:up":
             procs["STRING"] = lambda x: x[1:-1].upper()
         elif n == "Measure:decimal":
